@@ -244,4 +244,99 @@ impl crate::ops::StrictOps for B {
         let f = build_open(f);
         pan(catch(|| f.validate().is_ok()))
     }
+
+    fn layer<O: Lab, A: Lab>(f: &POpen<O, A>) -> Res<(Vec<usize>, Vec<usize>)> {
+        let f = build_open(f);
+        match catch(|| strict::layer::layer(&f)) {
+            Err(p) => Err(Fail::Panic(p)),
+            Ok((order, unv)) => {
+                let o = decode_ff(&order, "layer order").map_err(Fail::Malformed)?;
+                Ok((o, unv.0.clone()))
+            }
+        }
+    }
+    fn layered_operations<O: Lab, A: Lab>(f: &POpen<O, A>) -> Res<(Vec<Vec<usize>>, Vec<usize>)> {
+        let f = build_open(f);
+        match catch(|| strict::layer::layered_operations(&f)) {
+            Err(p) => Err(Fail::Panic(p)),
+            Ok((groups, unv)) => Ok((groups.into_iter().map(|g| g.0).collect(), unv.0)),
+        }
+    }
+    fn hook_converse(lists: &[Vec<usize>], codomain: usize) -> Res<Vec<Vec<usize>>> {
+        let r = seg(lists, codomain);
+        match catch(|| strict::verif_hooks::converse(&r)) {
+            Err(p) => Err(Fail::Panic(p)),
+            Ok(c) => decode_seg(&c, "converse").map_err(Fail::Malformed),
+        }
+    }
+    fn hook_operation_adjacency<O: Lab, A: Lab>(f: &POpen<O, A>) -> Res<Vec<Vec<usize>>> {
+        let h = build_hyper(f);
+        match catch(|| strict::verif_hooks::operation_adjacency(&h)) {
+            Err(p) => Err(Fail::Panic(p)),
+            Ok(c) => decode_seg(&c, "operation_adjacency").map_err(Fail::Malformed),
+        }
+    }
+    fn hook_node_adjacency<O: Lab, A: Lab>(f: &POpen<O, A>) -> Res<Vec<Vec<usize>>> {
+        let h = build_hyper(f);
+        match catch(|| strict::verif_hooks::node_adjacency(&h)) {
+            Err(p) => Err(Fail::Panic(p)),
+            Ok(c) => decode_seg(&c, "node_adjacency").map_err(Fail::Malformed),
+        }
+    }
+    fn hook_indegree(adj: &[Vec<usize>]) -> Res<Vec<usize>> {
+        let a = seg(adj, adj.len());
+        match catch(|| strict::verif_hooks::indegree(&a)) {
+            Err(p) => Err(Fail::Panic(p)),
+            Ok(c) => decode_ff(&c, "indegree").map_err(Fail::Malformed),
+        }
+    }
+    fn hook_kahn(adj: &[Vec<usize>]) -> Res<(Vec<usize>, Vec<usize>)> {
+        let a = seg(adj, adj.len());
+        match catch(|| strict::verif_hooks::kahn(&a)) {
+            Err(p) => Err(Fail::Panic(p)),
+            Ok((o, u)) => Ok((o.0, u.0)),
+        }
+    }
+    fn is_acyclic<O: Lab, A: Lab>(f: &POpen<O, A>, via_open: bool) -> Res<bool> {
+        let f = build_open(f);
+        pan(catch(|| if via_open { f.is_acyclic() } else { f.h.is_acyclic() }))
+    }
+    fn is_monogamous<O: Lab, A: Lab>(f: &POpen<O, A>) -> Res<bool> {
+        let f = build_open(f);
+        pan(catch(|| f.is_monogamous()))
+    }
+    fn degrees<O: Lab, A: Lab>(f: &POpen<O, A>, node: usize) -> Res<(usize, usize)> {
+        let h = build_hyper(f);
+        pan(catch(|| (h.in_degree(node), h.out_degree(node))))
+    }
+    fn eval<O: Lab, A: Lab>(f: &POpen<O, A>, inputs: &[u64], interp: &(dyn Fn(&A, &[u64]) -> Vec<u64> + Sync)) -> Res<(Option<Vec<u64>>, Vec<(A, Vec<u64>)>)> {
+        let f = build_open(f);
+        let log = std::cell::RefCell::new(Vec::new());
+        let r = catch(|| {
+            strict::eval::eval(&f, Arr(inputs.to_vec()), |labels: SF<A>, args: IC<SF<u64>>| {
+                let args = decode_seg_sf(&args, "apply arguments").expect("apply arguments malformed");
+                let labels: Vec<A> = labels.0 .0.clone();
+                assert_eq!(labels.len(), args.len(), "apply: one argument list per operation");
+                let mut outs = vec![];
+                for (l, a) in labels.iter().zip(args.iter()) {
+                    log.borrow_mut().push((l.clone(), a.clone()));
+                    outs.push(interp(l, a));
+                }
+                seg_sf(&outs)
+            })
+        });
+        match r {
+            Err(p) => Err(Fail::Panic(p)),
+            Ok(o) => Ok((o.map(|a| a.0), log.into_inner())),
+        }
+    }
+    fn arrow_new<O: Lab, A: Lab>(g: &POpen<O, A>, h: &POpen<O, A>, w: (&[usize], usize), x: (&[usize], usize)) -> Res<Result<(), String>> {
+        let (g, h) = (build_hyper(g), build_hyper(h));
+        let (w, x) = (ff(w.0, w.1), ff(x.0, x.1));
+        pan(catch(|| strict::hypergraph::arrow::HypergraphArrow::new(g, h, w, x).map(|_| ()).map_err(|e| format!("{:?}", e))))
+    }
+    fn arrow_mono_convex<O: Lab, A: Lab>(g: &POpen<O, A>, h: &POpen<O, A>, w: (&[usize], usize), x: (&[usize], usize)) -> Res<(bool, bool)> {
+        let a = strict::hypergraph::arrow::HypergraphArrow { source: build_hyper(g), target: build_hyper(h), w: ff(w.0, w.1), x: ff(x.0, x.1) };
+        pan(catch(|| (a.is_monomorphism(), a.is_convex_subgraph())))
+    }
 }
